@@ -35,13 +35,27 @@ void arm(string hook, int subject, string action, int a, int b) {
 // half of the files live under a path whose first 40 characters (all the name table hashes) are the same: blueprints and clones of
 // these files share one hash chain
 string fname(int k) { return k < 3 ? "/t/o" + k : "/t/c08_a_directory_name_longer_than_the_forty_hashed_characters/o" + k; }
+// the same file under the spellings the driver accepts for it: source suffixes (also repeated), extra or missing leading slashes
+string spelled(int k, int sp) {
+  string n = fname(k);
+  switch (sp % 8) {
+  case 2: return n + ".c";
+  case 3: return n + ".c.c";
+  case 4: return "/" + n;
+  case 5: return n[1..];
+  case 6: return n[1..] + ".c.c.c";
+  case 7: return "//" + n + ".c";
+  }
+  return n;
+}
 mixed perform(string action, int a, int b) {
   object x = ref(a), y = ref(b);
   switch (action) {
   case "move": if (x && y) { x->do_move(y); return 1; } return 0;
   case "destruct": if (x) { destruct(x); return 1; } return 0;
-  case "clone": { object o = new(fname(a % 6)); return 1; }
-  case "load": { object o = load_object(fname(a % 6)); return objectp(o); }
+  case "clone": { object o = new(spelled(a % 6, b)); return 1; }
+  case "load": { object o = load_object(spelled(a % 6, b)); return objectp(o); }
+  case "call_named": return call_other(spelled(a % 6, b), "query_idx");
   case "error": error("hook fault\n");
   case "living": if (x) { x->do_living("liv" + (b % 4)); return 1; } return 0;
   case "unliving": if (x) { x->do_unliving(); return 1; } return 0;
@@ -102,10 +116,11 @@ void do_add_action(string v) { add_action("act", v); }
 int act(string a) { "/t/c08script"->fire("action", this_object()); return 1; }
 int do_command(string c) { return command(c); }
 void do_heart(int on) { set_heart_beat(on); }
+int query_idx() { return idx; }
 void heart_beat() { }
 '''
 
-ACTIONS = ["move", "move", "move", "destruct", "destruct", "clone", "load", "living", "unliving", "action", "command", "present", "find_living", "heart", "error"]
+ACTIONS = ["move", "move", "move", "destruct", "destruct", "clone", "load", "living", "unliving", "action", "command", "present", "find_living", "heart", "call_named", "error"]
 HOOKS = ["create", "init", "mod", "id", "action"]
 
 
